@@ -153,6 +153,7 @@ impl Names {
                     "l".repeat(300)
                 }
             }
+            4..=12 => r.pick(&crate::vocab::ATTR_NAMES).to_string(),
             _ => r.pick(&NAME_POOL).to_string(),
         };
         while self.used.contains(&c) {
